@@ -6,6 +6,14 @@
      expr  val | (v X) | (OP a b) with OP one of + - * < =
      cond  (cv X) | (not c) | (clt a b) | (ceq a b)
      stmt  skip | (asg X e) | (seq s s) | (if c s s) | (while c s) | (print e) | (cc K) | (call X F e...)
+   proto    (proto FUEL (obj...) (op...)) -> "wt=0|1 res=ok|crash|fuel|block acc=N out=<events of op 1>|<events of op 2>|..."
+     obj   (gen NP (init-expr...) BODY FINAL (ARG...)) | (list k...) | (from LO) | (chan CAP) | (prom r V) | (prom e T) | (once)
+           generator bodies in the syntax of ocaml/C15: expr (c N) (v X) (+ a b) (- a b) ( * a b) (h K a b);
+           cond (lt a b) (le a b) (eq a b) (not c) (and c d) (or c d);
+           stmt skip (set X e) (bump X e) (seq s...) (if c s s) (while c s) (yield e) (ret e) (throw T);
+           local NP+i is initialised by init-expr i before BODY
+     op    (next I) (reset I) (forin I [LIM]) (push I V) (pop I) (close I) (len I) (await I) (call I D)
+     events: V<k> value, S stop, E<t> error tag, C closed error, K ok; comma separated within one operation
    mutex    (mutex FX op...)  ops: l u rl ru -> "ok,err,...[,fatal|,block]" one entry per executed operation  (FX = 0 as found, 1 fixed) *)
 open C01_Core
 
@@ -111,6 +119,97 @@ let b01 b = if b then "1" else "0"
 let mop_of = function
   | A "l" -> MLock | A "u" -> MUnlock | A "rl" -> MRLock | A "ru" -> MRUnlock | _ -> failwith "mop"
 
+
+(* ---- protocol sequences (Model/C01_Proto.v over Model/C15_Gen.v) ---- *)
+module G = C15_Gen
+module P = C01_Proto
+
+let rec gexpr = function
+  | L [ A "c"; A k ] -> G.EConst (z k)
+  | L [ A "v"; A k ] -> G.EVar (nat k)
+  | L [ A "+"; a; b ] -> G.EAdd (gexpr a, gexpr b)
+  | L [ A "-"; a; b ] -> G.ESub (gexpr a, gexpr b)
+  | L [ A "*"; a; b ] -> G.EMul (gexpr a, gexpr b)
+  | L [ A "h"; A k; a; b ] -> G.ECall (nat k, gexpr a, gexpr b)
+  | _ -> failwith "gexpr"
+
+let rec gcond = function
+  | L [ A "lt"; a; b ] -> G.CLt (gexpr a, gexpr b)
+  | L [ A "le"; a; b ] -> G.CLe (gexpr a, gexpr b)
+  | L [ A "eq"; a; b ] -> G.CEq (gexpr a, gexpr b)
+  | L [ A "not"; c ] -> G.CNot (gcond c)
+  | L [ A "and"; c; d ] -> G.CAnd (gcond c, gcond d)
+  | L [ A "or"; c; d ] -> G.COr (gcond c, gcond d)
+  | _ -> failwith "gcond"
+
+let rec gstmt = function
+  | A "skip" -> G.SSkip
+  | L [ A "set"; A x; e ] -> G.SAssign (nat x, gexpr e)
+  | L [ A "bump"; A x; e ] -> G.SBump (nat x, gexpr e)
+  | L (A "seq" :: ss) -> (
+      match ss with
+      | [] -> G.SSkip
+      | [ s ] -> gstmt s
+      | s :: r -> G.SSeq (gstmt s, gstmt (L (A "seq" :: r))))
+  | L [ A "if"; c; a; b ] -> G.SIf (gcond c, gstmt a, gstmt b)
+  | L [ A "while"; c; b ] -> G.SWhile (gcond c, gstmt b)
+  | L [ A "yield"; e ] -> G.SYield (gexpr e)
+  | L [ A "ret"; e ] -> G.SReturn (gexpr e)
+  | L [ A "throw"; A t ] -> G.SThrow (z t)
+  | _ -> failwith "gstmt"
+
+let atom = function A k -> k | _ -> failwith "atom"
+
+let obj_of = function
+  | L [ A "gen"; A np; L inits; body; final; L args ] ->
+      let np = int_of_string np in
+      let pre = List.mapi (fun i e -> G.SAssign (nat_of_int (np + i), gexpr e)) inits in
+      let b = List.fold_right (fun s acc -> G.SSeq (s, acc)) pre (gstmt body) in
+      let f = { G.nlocals = nat_of_int (List.length inits); G.body = b; G.final = gexpr final } in
+      let a = List.map (fun x -> z (atom x)) args in
+      P.OGen (f, a, G.gen_init f a)
+  | L (A "list" :: ks) -> P.OIter (List.map (fun x -> z (atom x)) ks, Datatypes.O)
+  | L [ A "from"; A lo ] -> P.OFrom (z lo, Datatypes.O)
+  | L [ A "chan"; A cap ] -> P.OChan (nat cap, [], false)
+  | L [ A "prom"; A "r"; A v ] -> P.OProm (G.Resolved (z v))
+  | L [ A "prom"; A "e"; A t ] -> P.OProm (G.Rejected (z t))
+  | L [ A "once" ] -> P.OOnce (false, z "0")
+  | _ -> failwith "obj"
+
+let pop_of = function
+  | L [ A "next"; A i ] -> P.PNext (nat i)
+  | L [ A "reset"; A i ] -> P.PReset (nat i)
+  | L [ A "forin"; A i ] -> P.PForIn (nat i, None)
+  | L [ A "forin"; A i; A lim ] -> P.PForIn (nat i, Some (nat lim))
+  | L [ A "push"; A i; A v ] -> P.PPush (nat i, z v)
+  | L [ A "pop"; A i ] -> P.PPop (nat i)
+  | L [ A "close"; A i ] -> P.PClose (nat i)
+  | L [ A "len"; A i ] -> P.PLen (nat i)
+  | L [ A "await"; A i ] -> P.PAwait (nat i)
+  | L [ A "call"; A i; A d ] -> P.PCall (nat i, z d)
+  | _ -> failwith "op"
+
+let show_pev = function
+  | P.EVal v -> "V" ^ zs v
+  | P.EStop -> "S"
+  | P.EErr t -> "E" ^ zs t
+  | P.EClosed -> "C"
+  | P.EOk -> "K"
+
+let run_proto fuel objs ops =
+  let h = List.map obj_of objs in
+  let os = List.map pop_of ops in
+  let w = P.wt_ops (List.map P.kind_of h) os in
+  let res, acc, out =
+    match P.run_ops (nat fuel) h os (z "0") [] with
+    | P.POk (_, acc, out) ->
+        ("ok", zs acc, String.concat "|" (List.rev_map (fun evs -> String.concat "," (List.map show_pev evs)) out))
+    | P.PCrash -> ("crash", "0", "")
+    | P.PFuel -> ("fuel", "0", "")
+    | P.PBlock -> ("block", "0", "")
+  in
+  "wt=" ^ b01 w ^ " res=" ^ res ^ " acc=" ^ acc ^ " out=" ^ out
+
 let run_sx (x : sx) : string =
   match x with
   | L (A "prog" :: A fuel :: ms) ->
@@ -125,6 +224,7 @@ let run_sx (x : sx) : string =
         | RFuel -> ("fuel", "")
       in
       "wt=" ^ b01 w ^ " guard=" ^ b01 g ^ " res=" ^ res ^ " out=" ^ out
+  | L [ A "proto"; A fuel; L objs; L ops ] -> run_proto fuel objs ops
   | L (A "mutex" :: A fx :: ops) ->
       (* per-operation outcome: ok / err (UnlockedError) ; the history stops at fatal / block *)
       let rec go e ops acc =
